@@ -9,6 +9,7 @@ Every `prove` call generates one verification condition  pc => cond  discharged 
 import fractions
 import itertools
 import os
+import re
 import subprocess
 import tempfile
 import time
@@ -600,17 +601,41 @@ def power(a, b):
     raise Undecided("symbolic power")
 
 
+_sqrt = z3.Function("SQRT", z3.RealSort(), z3.RealSort())  # principal square root (of a non-negative real)
+
+
+def _exact_root(f):
+    import math
+
+    if f < 0:
+        return None
+    n, d = math.isqrt(f.numerator), math.isqrt(f.denominator)
+    if n * n == f.numerator and d * d == f.denominator:
+        return fractions.Fraction(n, d)
+    return None
+
+
 def sqrt(x):
-    """Principal square root as a fresh real constrained by its defining property."""
+    """Principal square root: the application SQRT(x) of an uninterpreted function, with its defining
+    property (x >= 0  =>  SQRT(x) >= 0 and SQRT(x)^2 == x) instantiated at this argument.  A function
+    rather than a fresh constant, so that a square root evaluated under a binder (array contents
+    lambdas) denotes the same value as the one evaluated at an instance."""
     x = SV.lift(x)
+    xs = simp(x.real())
+    if z3.is_rational_value(xs):
+        f = fractions.Fraction(xs.numerator_as_long(), xs.denominator_as_long())
+        e = _exact_root(f)
+        if e is not None:
+            return SV(rv(e), "r")
     c = concrete(x)
     p = cur()
-    key = ("sqrt", tid(z3.simplify(x.real())))
+    key = ("sqrt", tid(xs))
     if key in p.counter:
         return p.counter[key]
-    r = z3.Real(p.fresh_name("sqrt_r"))
-    xr = x.real()
-    p.add(z3.Implies(xr >= 0, z3.And(r >= 0, r * r == xr)))
+    r = _sqrt(xs)
+    ax = z3.Implies(xs >= 0, z3.And(r >= 0, r * r == xs))
+    p.add(ax)
+    p.counter.setdefault("@sqrtax", []).append(ax)
     if c is not None:
         f = fractions.Fraction(c)
         if f >= 0:
@@ -621,10 +646,17 @@ def sqrt(x):
             lo, hi = approx - fractions.Fraction(1, 10**8), approx + fractions.Fraction(1, 10**8)
             if lo > 0:
                 p.add(r >= rv(lo))
+                p.counter["@sqrtax"].append(r >= rv(lo))
             p.add(r <= rv(hi))
+            p.counter["@sqrtax"].append(r <= rv(hi))
     out = SV(r, "r")
     p.counter[key] = out
     return out
+
+
+def sqrt_axioms():
+    """the instances of the defining property of SQRT asserted on this path (hypotheses for lemmas)"""
+    return list(cur().counter.get("@sqrtax", []))
 
 
 def ite(c, a, b):
@@ -731,6 +763,11 @@ def conj(*xs):
     return SV(z3.And(*ts) if ts else z3.BoolVal(True), "b")
 
 
+def implies(a, b):
+    """a => b as a clause, without deciding either side"""
+    return SV(z3.Implies(bterm(a), bterm(b)), "b")
+
+
 def assume(c):
     p = cur()
     t = bterm(c)
@@ -741,7 +778,7 @@ def assume(c):
 
 def decide(t):
     p = cur()
-    t = z3.simplify(t)
+    t = simp(t)
     if z3.is_true(t):
         return True
     if z3.is_false(t):
@@ -834,6 +871,9 @@ def prove(name, cond, detail=None):
         else:
             ob.status = "unknown"
             ob.smt2 = _to_smt2(p.pc + [z3.Not(t)])
+            if os.environ.get("PYVC_DUMP_DIR"):
+                with open(os.path.join(os.environ["PYVC_DUMP_DIR"], re.sub(r"[^A-Za-z0-9_.]+", "_", name)[-120:] + ".smt2"), "w") as fh:
+                    fh.write(ob.smt2)
             r2 = _try_other_backends(ob.smt2)
             if r2 is not None:
                 ob.status, ob.backend = r2
@@ -842,6 +882,51 @@ def prove(name, cond, detail=None):
     if ob.status == "discharged":
         p.add(t)
     return ob.status == "discharged"
+
+
+def lemma(name, hyps, goal):
+    """Obligation `goal` proved from an explicit list of facts (manual slicing for hard arithmetic): every
+    hypothesis must already be on the path condition or is proved first as its own obligation; then
+    hyps => goal is checked in isolation.  If that fails the obligation falls back to the ordinary
+    prove (whole path condition), so a lemma can never hide a refutation."""
+    p = cur()
+    hs = []
+    pcs = {c.get_id() for c in p.pc}
+    for k, h in enumerate(hyps):
+        t = bterm(h)
+        if z3.is_true(z3.simplify(t)):
+            continue
+        if t.get_id() not in pcs and not prove("%s.hyp%d" % (name, k), t):
+            return prove(name, goal)
+        hs.append(t)
+    g = bterm(goal)
+    t0 = time.time()
+    ha = [_abs_lambdas(h) for h in hs]
+    ga = _abs_lambdas(g)
+    r = None
+    if is_nonlinear(ga) or any(is_nonlinear(h) for h in ha):
+        r = _nra_split_unsat(ha, ga)
+    if r != z3.unsat:
+        s = z3.Solver()
+        s.set("timeout", TIMEOUT_MS)
+        s.set("rlimit", RLIMIT_PROVE)
+        s.add(*ha)
+        s.add(z3.Not(ga))
+        r = _guarded(lambda: s.check(), TIMEOUT_MS / 1000.0)
+    p.solver_time += time.time() - t0
+    if r == z3.unsat:
+        ob = Obligation(name)
+        ob.path = list(p.trace)
+        ob.tainted = p.tainted
+        ob.status, ob.backend = "discharged", "z3-lemma"
+        ob.time = time.time() - t0
+        p.obligations.append(ob)
+        p.add(g)
+        return True
+    if os.environ.get("PYVC_DUMP_DIR"):
+        with open(os.path.join(os.environ["PYVC_DUMP_DIR"], re.sub(r"[^A-Za-z0-9_.]+", "_", name)[-120:] + ".lemma.smt2"), "w") as fh:
+            fh.write(_to_smt2(ha + [z3.Not(ga)]))
+    return prove(name, goal)
 
 
 def _symbols(t, cache):
@@ -882,12 +967,92 @@ def _symbols(t, cache):
     return out
 
 
-def _sliced_unsat(p, goal):
+_LAMABS = {}      # id(lambda term) -> (term kept alive, opaque array constant)
+_LAMABS_BY_TEXT = {}
+_ABS_CACHE = {}
+_LAM_OF_CONST = []
+
+
+def simp(t):
+    """z3.simplify that leaves lambda terms untouched: the simplifier's normal form depends on term creation order,
+    and a re-simplified copy of an array-contents lambda would no longer be the SAME argument of np_count / np_sel /
+    the reductions (congruence is all the solver knows about them)"""
+    if not _has_lambda(t):
+        return z3.simplify(t)
+    a = _abs_lambdas(t)
+    r = z3.simplify(a)
+    return z3.substitute(r, *_LAM_OF_CONST) if _LAM_OF_CONST else r
+
+
+
+def _abs_lambdas(t):
+    """replace every lambda term (array contents handed to the uninterpreted np_count / np_sel / reductions) by
+    an opaque array constant, the same constant for the same lambda.  The result is implied by... rather: any
+    model of the original is a model of the abstraction, so `unsat` of the abstraction is `unsat` of the
+    original (what is lost is only extensionality between syntactically different lambdas)."""
+    k = t.get_id()
+    hit = _ABS_CACHE.get(k)
+    if hit is not None and hit[0].eq(t):
+        return hit[1]
+    if z3.is_quantifier(t):
+        if t.is_lambda():
+            key = t.sexpr()
+            c = _LAMABS_BY_TEXT.get(key)
+            if c is None:
+                c = _LAMABS_BY_TEXT[key] = z3.Const("lam!%d" % len(_LAMABS_BY_TEXT), t.sort())
+                _LAM_OF_CONST.append((c, t))
+            r = c
+        else:
+            r = t
+    elif z3.is_app(t) and t.num_args() > 0:
+        ch = [_abs_lambdas(c) for c in t.children()]
+        r = t if all(a.eq(b) for a, b in zip(ch, t.children())) else t.decl()(*ch)
+    else:
+        r = t
+    if len(_ABS_CACHE) > 200000:
+        _ABS_CACHE.clear()
+    _ABS_CACHE[k] = (t, r)
+    return r
+
+
+def _has_lambda(t, cache={}):
+    k = t.get_id()
+    hit = cache.get(k)
+    if hit is not None and hit[0].eq(t):
+        return hit[1]
+    if z3.is_quantifier(t):
+        r = t.is_lambda() or _has_lambda(t.body())
+    elif z3.is_app(t):
+        r = any(_has_lambda(c) for c in t.children())
+    else:
+        r = False
+    if len(cache) > 200000:
+        cache.clear()
+    cache[k] = (t, r)
+    return r
+
+
+class _AbsView:
+    """the path with every lambda abstracted (same interface as far as _sliced_unsat needs it)"""
+
+    def __init__(self, p):
+        self.pc = [_abs_lambdas(c) for c in p.pc]
+        self.counter = p.counter.setdefault("@absview", {})
+        self.solver_time = 0.0
+
+
+def _sliced_unsat(p, goal, _abstracted=False):
     """try to prove the goal from growing subsets of the path condition (sound: fewer
     hypotheses): first the conjuncts that talk only about the goal's symbols, then one and two
     rounds of the cone of influence.  Returns z3.unsat on success; anything else means 'try the
     full query'."""
-    if len(p.pc) < 12:
+    if not _abstracted and (_has_lambda(goal) or any(_has_lambda(c) for c in p.pc)):
+        v = _AbsView(p)
+        r = _sliced_unsat(v, _abs_lambdas(goal), True)
+        p.solver_time += v.solver_time
+        if r == z3.unsat:
+            return r
+    if len(p.pc) < 12 and not _abstracted:
         return None
     cache = p.counter.setdefault("@symcache", {})
     gs = set(_symbols(goal, cache))
@@ -910,8 +1075,9 @@ def _sliced_unsat(p, goal):
             continue
         tried = len(sub)
         s = z3.Solver()
-        s.set("timeout", max(1000, TIMEOUT_MS // 4))
-        s.set("rlimit", RLIMIT_PROVE // 8)
+        last_abs = _abstracted and level == 3
+        s.set("timeout", max(1000, TIMEOUT_MS // (1 if last_abs else 4)))
+        s.set("rlimit", RLIMIT_PROVE // (1 if last_abs else 8))
         s.add(*sub)
         s.add(z3.Not(goal))
         t0 = time.time()
@@ -921,7 +1087,7 @@ def _sliced_unsat(p, goal):
             if r == z3.unsat:
                 p.solver_time += time.time() - t0
                 return r
-        r = _guarded(lambda: s.check(), max(1.0, TIMEOUT_MS / (20000.0 if nl else 4000.0)))
+        r = _guarded(lambda: s.check(), max(1.0, TIMEOUT_MS / (1500.0 if last_abs else (20000.0 if nl else 4000.0))))
         p.solver_time += time.time() - t0
         if r == z3.unsat:
             return r
@@ -972,7 +1138,7 @@ def _nra_split_unsat(hyps, goal):
     seen = set()
     for c in hyps + [neg]:
         collect(c, seen)
-    if len(apps) > 60:
+    if len(apps) > 160:
         return None
     subs, items = [], []
     for k, (sx, t) in enumerate(apps.items()):
@@ -990,9 +1156,27 @@ def _nra_split_unsat(hyps, goal):
         if not is_nonlinear(c):
             lin.add(c)
     eqs = []
+    deadline = time.time() + max(5.0, TIMEOUT_MS / 1000.0)
+    r0 = lin.check()
+    if r0 == z3.unsat:
+        return z3.unsat  # the linear part of the hypotheses alone is contradictory
+    model = lin.model() if r0 == z3.sat else None
+
+    def maybe_equal(a, b):
+        # an equality entailed by the linear part holds in every model of it: one model filters the candidates
+        if model is None:
+            return True
+        try:
+            return z3.is_true(model.eval(a == b, model_completion=True))
+        except z3.Z3Exception:
+            return True
+
     for (t1, v1), (t2, v2) in _it.combinations(items, 2):
-        if t1.decl().eq(t2.decl()):
-            args_eq = z3.And(*[a == b for a, b in zip(t1.children(), t2.children())])
+        if t1.decl().eq(t2.decl()) and time.time() < deadline:
+            pairs = list(zip(t1.children(), t2.children()))
+            if not all(maybe_equal(a, b) for a, b in pairs):
+                continue
+            args_eq = z3.And(*[a == b for a, b in pairs])
             if lin.check(z3.Not(args_eq)) == z3.unsat:
                 eqs.append(v1 == v2)
     # resolve integer-only conditions with the linear part (Implies / If guards such as 0 <= i < n)
